@@ -5,6 +5,7 @@ import (
 	"bytes"
 	"errors"
 	"fmt"
+	beacon "github.com/oasisprotocol/oasis-core/go/beacon/api"
 	"sort"
 	"testing"
 
@@ -109,6 +110,7 @@ func TestC14Elections(t *testing.T) {
 			accounts := map[staking.Address]*staking.Account{}
 			var thresholds map[staking.ThresholdKind]quantityT
 			var runtimes []*registry.Runtime
+			var vrfState *beacon.VRFState
 			capEpoch := uint64(0)
 			side := func(stage int) {
 				if stage != 1 { // replay path: 0 = before BeginBlock, 1 = right after BeginBlock
@@ -135,6 +137,7 @@ func TestC14Elections(t *testing.T) {
 				th, _ := wv.St.Thresholds(wv.Ctx())
 				thresholds = th
 				runtimes, _ = wv.Reg.Runtimes(wv.Ctx())
+				vrfState = wv.VRFState()
 			}
 			// R0 replays (BeginBlock really executes when called, so the capture sees the election-time state),
 			// R1 validates the proposal first.
@@ -190,7 +193,7 @@ func TestC14Elections(t *testing.T) {
 				}
 				return acct.Escrow.Active.Balance.ToBigInt()
 			}
-			eligible := func(n *node.Node, role node.RolesMask) (bool, string) {
+			baseEligible := func(n *node.Node, role node.RolesMask) (bool, string) {
 				switch {
 				case n.IsExpired(capEpochT(capEpoch)):
 					return false, "expired"
@@ -200,6 +203,44 @@ func TestC14Elections(t *testing.T) {
 					return false, "role"
 				case !stakeOK(n.EntityID):
 					return false, "stake"
+				}
+				return true, ""
+			}
+			// VRF backend: the proofs submitted during the previous epoch decide. Validators: when at least MinValidators of
+			// the candidates proved, only provers are candidates (otherwise the entropy fallback considers everybody).
+			// Committees: only with a high-quality previous alpha, only provers, only nodes whose registration predates
+			// the epoch (status.IsEligibleForElection).
+			vrfOn := sim.W.Spec.VRF && vrfState != nil && vrfState.PrevState != nil
+			proved := func(n *node.Node) bool { return vrfOn && vrfState.PrevState.Pi[n.ID] != nil }
+			validatorsByBeta := false
+			if vrfOn {
+				np := 0
+				for _, n := range nodes {
+					if ok, _ := baseEligible(n, node.RoleValidator); ok && proved(n) {
+						np++
+					}
+				}
+				validatorsByBeta = np >= params.MinValidators
+				rec.Label(fmt.Sprintf("vrf-election:validators-by-beta=%v", validatorsByBeta))
+			}
+			eligible := func(n *node.Node, role node.RolesMask) (bool, string) {
+				if ok, why := baseEligible(n, role); !ok {
+					return false, why
+				}
+				if !vrfOn && sim.W.Spec.VRF && role == node.RoleComputeWorker {
+					return false, "no previous VRF state"
+				}
+				if vrfOn {
+					switch {
+					case role == node.RoleValidator && validatorsByBeta && !proved(n):
+						return false, "no VRF proof"
+					case role == node.RoleComputeWorker && !vrfState.PrevState.CanElectCommittees:
+						return false, "previous alpha was of low quality"
+					case role == node.RoleComputeWorker && !proved(n):
+						return false, "no VRF proof"
+					case role == node.RoleComputeWorker && statuses[n.ID] != nil && !statuses[n.ID].IsEligibleForElection(capEpochT(capEpoch)):
+						return false, "registered too recently"
+					}
 				}
 				return true, ""
 			}
@@ -359,6 +400,7 @@ func TestC14Elections(t *testing.T) {
 							continue
 						}
 						if cs.ValidatorSet != nil && !electedEntities[n.EntityID] {
+							rec.Label(fmt.Sprintf("validator-set-constraint:candidate-excluded,vrf=%v", vrfOn))
 							continue
 						}
 						poolPerEnt[n.EntityID]++
